@@ -149,7 +149,12 @@ def to_script(history):
 
 def observe(role, history, **kw):
     """Run the provider; returns (sim, groups) with groups aligned to the model's grouping."""
-    sim = simnet.run_scenario(role, to_script(history), **kw)
+    script = to_script(history)
+    if 'budget' not in kw:
+        # the step budget is a livelock detector, not a speed limit: large PDUs read in small pieces take many turns
+        total = sum(len(a.get('data') or b'') for a in script if a['k'] == 'seg')
+        kw['budget'] = 20000 + 10 * (total // max(1, min(kw.get('max_pdu') or 65536, 65536)) + len(script))
+    sim = simnet.run_scenario(role, script, **kw)
     starts = [i for i, act in enumerate(history) if i == 0 or not is_eager(act)]
     # events before the first release belong to group 0 (e.g. nothing, normally)
     groups = [{'events': [], 'snap': None} for _ in starts]
